@@ -199,6 +199,35 @@ func gen(g *core.G) {
 		}
 	}
 
+	// (i''') resolution, argument SHAPES: for every parameterized type the array form, the array form followed by further
+	// arguments, nested arrays, an array in a later position — with a string, a Boolean, an Integer, a type, `default` and
+	// the leaves particular to that type at every position of the flattened and of the un-flattened list (the creators'
+	// "one Array argument holds the arguments" idiom re-counts its arguments; a stale count is an index fault)
+	for _, pt := range syn.ParamTypeNames {
+		leaves := append(append([]string{}, syn.ShapeLeaves...), pt.Extra...)
+		for _, al := range syn.ArgShapes(leaves, false) {
+			emit(g, pt.Name+"["+al+"]")
+		}
+		for _, al := range syn.ArgShapes4(syn.ShapeLeaves, g.Thorough()) {
+			emit(g, pt.Name+"["+al+"]")
+		}
+		for i := 0; i < 200*g.Scale; i++ { // sampled: deeper nestings and longer lists over all leaves
+			emit(g, pt.Name+"["+randShape(g.Rng, leaves, 2)+"]")
+		}
+	}
+	// Struct: hash forms — every key kind x value kind, one and two entries, the hash inside an array, after / before another argument
+	structKeys := []string{"a", "'a'", "''", "Optional[a]", "NotUndef[a]", "String[a]", "Optional['']", "String", "1", "true", "[a]", "undef", "Optional[String]", "Optional[1]"}
+	structVals := []string{"String", "Optional[String]", "1", "'a'", "true", "[String]", "undef", "default", "{a => String}", "Foo"}
+	for _, k := range structKeys {
+		for _, v := range structVals {
+			m := k + " => " + v
+			for _, t := range []string{"Struct[{" + m + "}]", "Struct[" + m + "]", "Struct[[{" + m + "}]]", "Struct[{" + m + "}, 1]", "Struct[1, {" + m + "}]", "Struct[[{" + m + "}], true]",
+				"Struct[{b => String, " + m + "}]", "Struct[{" + m + ", b => String}]", "Struct[{" + m + "}, {" + m + "}]", "Struct[[{" + m + "}, {" + m + "}]]", "Struct[[[{" + m + "}]]]"} {
+				emit(g, t)
+			}
+		}
+	}
+
 	// (i-def) definitions: the init hashes of Object and TypeSet types with entries of every kind under every key (right and
 	// wrong), in each form a definition can take: bare, as the right side of `type X = ...`, with `[{...}]` and with `{...}`,
 	// and with a parent type in place of `Object`
@@ -283,6 +312,20 @@ func gen(g *core.G) {
 	for i := 0; i < nr; i++ {
 		emit(g, randBytes(g.Rng))
 	}
+}
+
+// randShape draws an argument list with nested arrays over the leaves
+func randShape(r *rand.Rand, leaves []string, depth int) string {
+	n := 1 + r.Intn(4)
+	xs := make([]string, n)
+	for i := range xs {
+		if depth > 0 && r.Intn(3) == 0 {
+			xs[i] = "[" + randShape(r, leaves, depth-1) + "]"
+		} else {
+			xs[i] = leaves[r.Intn(len(leaves))]
+		}
+	}
+	return strings.Join(xs, ", ")
 }
 
 func seqs5(g *core.G, alphabet []string) {
